@@ -24,7 +24,15 @@ def case(k):
         s = hands.to_pbn(SEATS[k['first']])
         out['pbn'] = s
         try:
-            out['pbn_back'] = hv(Hands.convert_pbn(s + k.get('suffix', '')))
+            h1 = Hands.convert_pbn(s + k.get('suffix', ''))
+            out['pbn_back'] = hv(h1)
+            # the play removes cards from decoded hands in place: a second decode must not be affected
+            for p in SEATS:
+                for c in list(h1[p])[:3]:
+                    h1[p].discard(c)
+                h1[p].add(C(0))
+            if hv(Hands.convert_pbn(s + k.get('suffix', ''))) != out['pbn_back']:
+                out['pbn_back'] = ['decode after a decoded deal was modified differs']
         except Exception as e:
             out['pbn_back'] = None
     except Exception as e:
@@ -33,7 +41,12 @@ def case(k):
     try:
         b = hands.to_binary()
         out['bin'] = [list(b[p]) for p in SEATS]
-        out['bin_back'] = hv(Hands.convert_binary(b))
+        hb = Hands.convert_binary(b)
+        out['bin_back'] = hv(hb)
+        for p in SEATS:
+            hb[p].clear()
+        if hv(Hands.convert_binary(b)) != out['bin_back']:
+            out['bin_back'] = None
         nps = []
         for dt in (np.int32, np.int8, np.int64, np.float64, np.bool_, np.uint8):
             nb = hands.to_np_binary(dt)
@@ -46,7 +59,12 @@ def case(k):
         j = convert_deal(hands)
         out['json'] = [j[p] for p in 'NESW']
         out['json_keys'] = list(j.keys()) == ['N', 'E', 'S', 'W']
-        out['json_back'] = hv(hands_parser(json.loads(json.dumps(j))))
+        hj = hands_parser(json.loads(json.dumps(j)))
+        out['json_back'] = hv(hj)
+        for p in SEATS:
+            hj[p].clear()
+        if hv(hands_parser(json.loads(json.dumps(j)))) != out['json_back']:
+            out['json_back'] = None
     except Exception as e:
         out['json'] = None; out['json_back'] = None; out['json_keys'] = False
     out['eq_self'] = bool(hands == Hands(*[set(C(c) for c in h) for h in k['deal']]))
